@@ -176,11 +176,12 @@ def h(cfg):
 PL = sched.PLAIN
 QUICK_F = {
     'n3-plain': dict(PL, n=3, scenarios=[(5, 1)]),
-    'n3-two-clocks': dict(PL, n=3, two_clocks=[2], scenarios=[(4, 0)]),
-    'n2-two-clocks-features': dict(PL, n=2, two_clocks=[0], milestones=True, min_start=True, dates_on=1, balance=[True, False],
+    'n3-two-clocks': dict(PL, n=3, two_clocks=[2], link_pairs=[(0, 1), (1, 2)], scenarios=[(4, 0)]),
+    'n2-two-clocks-features': dict(PL, n=2, two_clocks=[0], milestones=True, min_start=True, dates_on=1, balance=[True],
                                    scenarios=[(2, 0)]),
     'n2-fixed': dict(PL, n=2, fixed=True, fixed_offsets=[-2, 1], dates_on=0, scenarios=[(1, 0)]),
-    'n2-resources': dict(PL, n=2, resources=['r', 'q'], calendars=['sparse', 'fraction'], two_clocks=[1], scenarios=[(5, 0)]),
+    'n2-resources': dict(PL, n=2, resources=['r', 'q'], calendars=['sparse'], two_clocks=[1], scenarios=[(5, 0)]),
+    'n2-unbalanced': dict(PL, n=2, balance=[False], two_clocks=[1], scenarios=[(0, -1)]),
     'n3-summary-values': dict(PL, n=3, summary_values=True, links=False, scenarios=[(2, -1)]),
     'n2-fixed-two-clocks': dict(PL, n=2, fixed=True, fixed_offsets=[-4], dates_on=0, two_clocks=[2], scenarios=[(2, -1)]),
     'n2-outside-same-id': dict(PL, n=2, outside_same_id=True, two_clocks=[1], scenarios=[(1, -1)]),
